@@ -128,7 +128,7 @@ class Ref:
         elif k == 'mem':
             a = simp(lv[1])
             if is_c(a) and a in self.hw:
-                st.events.append(('W', a, simp(conv(v, 'u8').t))); return
+                st.events.append(('W', a, simp(conv(v, 'u8').t), 0)); return
             st.M.store(a, simp(conv(v, 'u8').t))
         else: raise Unsupported('lvalue ' + k)
 
@@ -224,7 +224,7 @@ class Ref:
                 if lv[0] == 'mem':
                     a = simp(lv[1])
                     if is_c(a) and a in self.hw:
-                        s.events.append(('R', a, None))
+                        s.events.append(('R', a, None, 0))
                 yield self.read_lv(s, lv, fn), s
             return
         if isinstance(e, Un):
@@ -432,13 +432,13 @@ class Ref:
 
     def raw(self, st, s, fn):
         if s.kind in ('csleep',):
-            st.events.append(('csleep', s.arg, None)); yield None, st; return
+            st.events.append(('csleep', s.arg, None, 0)); yield None, st; return
         if s.kind == 'asm':
-            st.events.append(('asm', s.arg, None)); yield None, st; return
+            st.events.append(('asm', s.arg, None, 0)); yield None, st; return
         if s.kind == 'strobe':
             a = self.hw_names().get(s.arg.name if isinstance(s.arg, Var) else None)
             if a is None: raise Unsupported('strobe operand')
-            st.events.append(('W', a, None)); yield None, st; return
+            st.events.append(('W', a, None, 0)); yield None, st; return
         raise Unsupported('raw statement ' + s.kind)    # load/store have no C meaning: relational checks only
 
     def loop(self, st, s, fn):
